@@ -129,6 +129,7 @@ type solveOpts struct {
 	fullS    int
 	parallel int
 	twoBackends bool
+	quickOnly map[string]bool // obligation ids expected to fail (known findings): no long second stage
 }
 
 func solveAll(vcs []*VC, opts solveOpts) []*Result {
@@ -234,6 +235,9 @@ func solveOne(o *Obl, file string, cover bool, opts solveOpts) *Result {
 	if cover {
 		// covers: "unknown" is acceptable (vacuity not shown); only unsat is a failure
 		return &Result{Obl: o, Status: "sat", Backend: b1.name + "(unknown-accepted)", Ms: b1.ms, File: file}
+	}
+	if opts.quickOnly[oblID(o)] {
+		return &Result{Obl: o, Status: b1.st, Backend: b1.name, Ms: b1.ms, File: file, Output: b1.out}
 	}
 	// stage 2: the other back ends, longer limit
 	b2, ok := race([]solverCfg{solvers[1], solvers[2], solvers[0], solvers[3]}, opts.fullS)
